@@ -16,6 +16,8 @@ PROPS = {
     'C11': ['COW', 'CLEARALL', 'HASHCONS'],
     'C12': ['COW', 'HASHCONS', 'ITER', 'CLEARALL'],
     'C14': ['KIND', 'COW'],
+    'C17': ['CANON'],
+    'C18': ['REFCNT'],
     'C19': ['KIND', 'SIMMAP', 'DISPATCH'],
     'C20': ['INIT', 'FALLOFF', 'PAIRFIELD', 'COPYALL', 'FRAMERESET'],
 }
